@@ -67,3 +67,460 @@ package lorawan
 //@   ensures len: len(result) == int((idbits + 7) / 8)
 //@   ensures val: beN(result) == id
 //@   ensures fresh: fresh(result)
+
+// ---------------------------------------------------------------------------
+// C06 / C07 / C09 / C10: MAC-command payloads (LoRaWAN 1.0.3 §5, LoRaWAN 1.1 §5)
+//
+// Clause labels may carry the properties they serve ("C06,C07/wire"); unlabelled
+// clauses and all safety / frame obligations belong to the function's props.
+// Decoder clauses are stated WITHOUT old(*p): a decoder whose result depends on
+// the previous contents of its receiver fails them (C10, reused values).
+// ---------------------------------------------------------------------------
+
+//@ spec le16(b0, b1) = uint16(b0) | uint16(b1)<<8
+//@ spec le24(b0, b1, b2) = uint32(b0) | uint32(b1)<<8 | uint32(b2)<<16
+//@ spec le32(b0, b1, b2, b3) = uint32(b0) | uint32(b1)<<8 | uint32(b2)<<16 | uint32(b3)<<24
+// frequency fields: 24 bit, unit 100 Hz
+//@ spec freq_ok(f) = f % 100 == 0 && f / 100 < 16777216
+//@ spec b2u8(b) = ite(b, uint8(1), uint8(0))
+
+// ----- LinkCheckAns: Margin(1) GwCnt(1)
+//@ func (LinkCheckAnsPayload).MarshalBinary
+//@   props C09 C10
+//@   ensures C07/range: err == nil
+//@   ensures C06,C09/len: len(result) == 2
+//@   ensures C06,C10/wire: result[0] == p.Margin && result[1] == p.GwCnt
+//@   ensures C10/fresh: fresh(result)
+//@ func (*LinkCheckAnsPayload).UnmarshalBinary
+//@   props C09 C10
+//@   modifies *p
+//@   ensures C06,C09/len: (err == nil) == (len(data) == 2)
+//@   ensures C06,C10/wire: err == nil ==> p.Margin == data[0] && p.GwCnt == data[1]
+
+// ----- ChMask: 16 bits little endian, bit i = channel i
+//@ spec chmask16(m) = uint16(b2u8(m[0])) | uint16(b2u8(m[1]))<<1 | uint16(b2u8(m[2]))<<2 | uint16(b2u8(m[3]))<<3 | uint16(b2u8(m[4]))<<4 | uint16(b2u8(m[5]))<<5 | uint16(b2u8(m[6]))<<6 | uint16(b2u8(m[7]))<<7 | uint16(b2u8(m[8]))<<8 | uint16(b2u8(m[9]))<<9 | uint16(b2u8(m[10]))<<10 | uint16(b2u8(m[11]))<<11 | uint16(b2u8(m[12]))<<12 | uint16(b2u8(m[13]))<<13 | uint16(b2u8(m[14]))<<14 | uint16(b2u8(m[15]))<<15
+//@ func (ChMask).MarshalBinary
+//@   props C09 C10
+//@   ensures C07/range: err == nil
+//@   ensures C06,C09/len: len(result) == 2
+//@   ensures C06,C10/wire: le16(result[0], result[1]) == chmask16(m)
+//@   ensures C10/fresh: fresh(result)
+//@ func (*ChMask).UnmarshalBinary
+//@   props C09 C10
+//@   modifies *m
+//@   ensures C06,C09/len: (err == nil) == (len(data) == 2)
+//@   ensures C06,C10/wire: err == nil ==> chmask16(*m) == le16(data[0], data[1])
+
+// ----- Redundancy: RFU(7) ChMaskCntl(6..4) NbTrans(3..0)
+//@ func (Redundancy).MarshalBinary
+//@   props C09 C10
+//@   ensures C07/range: (err == nil) == (r.NbRep <= 15 && r.ChMaskCntl <= 7)
+//@   ensures C06,C09/len: err == nil ==> len(result) == 1
+//@   ensures C06,C10/wire: err == nil ==> result[0] == r.NbRep | r.ChMaskCntl<<4
+//@   ensures C10/fresh: fresh(result)
+//@ func (*Redundancy).UnmarshalBinary
+//@   props C09 C10
+//@   modifies *r
+//@   ensures C06,C09/len: (err == nil) == (len(data) == 1)
+//@   ensures C06,C10/wire: err == nil ==> r.NbRep == data[0] & 0x0f && r.ChMaskCntl == (data[0] >> 4) & 0x07
+
+// ----- LinkADRReq: DataRate(7..4) TXPower(3..0) | ChMask(2) | Redundancy(1)
+//@ func (LinkADRReqPayload).MarshalBinary
+//@   props C09 C10
+//@   ensures C07/range: (err == nil) == (p.DataRate <= 15 && p.TXPower <= 15 && p.Redundancy.NbRep <= 15 && p.Redundancy.ChMaskCntl <= 7)
+//@   ensures C06,C09/len: err == nil ==> len(result) == 4
+//@   ensures C06,C10/wire: err == nil ==> result[0] == p.TXPower | p.DataRate<<4 && le16(result[1], result[2]) == chmask16(p.ChMask) && result[3] == p.Redundancy.NbRep | p.Redundancy.ChMaskCntl<<4
+//@   ensures C10/fresh: fresh(result)
+//@ func (*LinkADRReqPayload).UnmarshalBinary
+//@   props C09 C10
+//@   modifies *p
+//@   ensures C06,C09/len: (err == nil) == (len(data) == 4)
+//@   ensures C06,C10/wire: err == nil ==> p.DataRate == data[0] >> 4 && p.TXPower == data[0] & 0x0f && chmask16(p.ChMask) == le16(data[1], data[2]) && p.Redundancy.NbRep == data[3] & 0x0f && p.Redundancy.ChMaskCntl == (data[3] >> 4) & 0x07
+
+// ----- LinkADRAns: Status: RFU(7..3) PowerACK(2) DataRateACK(1) ChannelMaskACK(0)
+//@ func (LinkADRAnsPayload).MarshalBinary
+//@   props C09 C10
+//@   ensures C07/range: err == nil
+//@   ensures C06,C09/len: len(result) == 1
+//@   ensures C06,C10/wire: result[0] == b2u8(p.ChannelMaskACK) | b2u8(p.DataRateACK)<<1 | b2u8(p.PowerACK)<<2
+//@   ensures C10/fresh: fresh(result)
+//@ func (*LinkADRAnsPayload).UnmarshalBinary
+//@   props C09 C10
+//@   modifies *p
+//@   ensures C06,C09/len: (err == nil) == (len(data) == 1)
+//@   ensures C06,C10/wire: err == nil ==> p.ChannelMaskACK == bit(data[0], 0) && p.DataRateACK == bit(data[0], 1) && p.PowerACK == bit(data[0], 2)
+
+// ----- DutyCycleReq: RFU(7..4) MaxDCycle(3..0); 1.0.x additionally defines 255 (device off)
+//@ func (DutyCycleReqPayload).MarshalBinary
+//@   props C09 C10
+//@   ensures C07/range: (err == nil) == (p.MaxDCycle <= 15 || p.MaxDCycle == 255)
+//@   ensures C06,C09/len: err == nil ==> len(result) == 1
+//@   ensures C06,C10/wire: err == nil ==> result[0] == p.MaxDCycle
+//@   ensures C10/fresh: fresh(result)
+//@ func (*DutyCycleReqPayload).UnmarshalBinary
+//@   props C09 C10
+//@   modifies *p
+//@   ensures C06,C09/len: (err == nil) == (len(data) == 1)
+//@   ensures C06,C10/wire: err == nil ==> p.MaxDCycle == ite(data[0] == 255, uint8(255), data[0] & 0x0f)
+
+// ----- DLSettings: OptNeg(7) RX1DROffset(6..4) RX2DataRate(3..0)
+//@ func (DLSettings).MarshalBinary
+//@   props C09 C10
+//@   ensures C07/range: (err == nil) == (s.RX2DataRate <= 15 && s.RX1DROffset <= 7)
+//@   ensures C06,C09/len: err == nil ==> len(result) == 1
+//@   ensures C06,C10/wire: err == nil ==> result[0] == s.RX2DataRate | s.RX1DROffset<<4 | b2u8(s.OptNeg)<<7
+//@   ensures C10/fresh: err == nil ==> fresh(result)
+//@ func (*DLSettings).UnmarshalBinary
+//@   props C09 C10
+//@   modifies *s
+//@   ensures C06,C09/len: (err == nil) == (len(data) == 1)
+//@   ensures C06,C10/wire: err == nil ==> s.OptNeg == bit(data[0], 7) && s.RX1DROffset == (data[0] >> 4) & 0x07 && s.RX2DataRate == data[0] & 0x0f
+
+// ----- RXParamSetupReq: DLSettings(1) Frequency(3)
+//@ func (RXParamSetupReqPayload).MarshalBinary
+//@   props C09 C10
+//@   ensures C07/range: (err == nil) == (freq_ok(p.Frequency) && p.DLSettings.RX2DataRate <= 15 && p.DLSettings.RX1DROffset <= 7)
+//@   ensures C06,C09/len: err == nil ==> len(result) == 4
+//@   ensures C06,C10/wire: err == nil ==> result[0] == p.DLSettings.RX2DataRate | p.DLSettings.RX1DROffset<<4 | b2u8(p.DLSettings.OptNeg)<<7 && le24(result[1], result[2], result[3]) == p.Frequency / 100
+//@   ensures C10/fresh: fresh(result)
+//@ func (*RXParamSetupReqPayload).UnmarshalBinary
+//@   props C09 C10
+//@   modifies *p
+//@   ensures C06,C09/len: (err == nil) == (len(data) == 4)
+//@   ensures C06,C10/wire: err == nil ==> p.DLSettings.OptNeg == bit(data[0], 7) && p.DLSettings.RX1DROffset == (data[0] >> 4) & 0x07 && p.DLSettings.RX2DataRate == data[0] & 0x0f && p.Frequency == le24(data[1], data[2], data[3]) * 100
+
+// ----- RXParamSetupAns: RFU(7..3) RX1DROffsetACK(2) RX2DataRateACK(1) ChannelACK(0)
+//@ func (RXParamSetupAnsPayload).MarshalBinary
+//@   props C09 C10
+//@   ensures C07/range: err == nil
+//@   ensures C06,C09/len: len(result) == 1
+//@   ensures C06,C10/wire: result[0] == b2u8(p.ChannelACK) | b2u8(p.RX2DataRateACK)<<1 | b2u8(p.RX1DROffsetACK)<<2
+//@   ensures C10/fresh: fresh(result)
+//@ func (*RXParamSetupAnsPayload).UnmarshalBinary
+//@   props C09 C10
+//@   modifies *p
+//@   ensures C06,C09/len: (err == nil) == (len(data) == 1)
+//@   ensures C06,C10/wire: err == nil ==> p.ChannelACK == bit(data[0], 0) && p.RX2DataRateACK == bit(data[0], 1) && p.RX1DROffsetACK == bit(data[0], 2)
+
+// ----- DevStatusAns: Battery(1) | RFU(7..6) Margin(5..0, signed)
+//@ func (DevStatusAnsPayload).MarshalBinary
+//@   props C09 C10
+//@   ensures C07/range: (err == nil) == (p.Margin >= 0 - 32 && p.Margin <= 31)
+//@   ensures C06,C09/len: err == nil ==> len(result) == 2
+//@   ensures C06,C10/wire: err == nil ==> result[0] == p.Battery && result[1] == uint8(p.Margin) & 0x3f
+//@   ensures C10/fresh: fresh(result)
+//@ func (*DevStatusAnsPayload).UnmarshalBinary
+//@   props C09 C10
+//@   modifies *p
+//@   ensures C06,C09/len: (err == nil) == (len(data) == 2)
+//@   ensures C06,C10/wire: err == nil ==> p.Battery == data[0] && p.Margin == int8(sext(data[1], 6))
+
+// ----- NewChannelReq: ChIndex(1) Freq(3) DrRange(1): MaxDR(7..4) MinDR(3..0)
+// Sub-GHz: unit 100 Hz.  2.4 GHz (Freq >= 2.4e9): unit 200 Hz; coded values >= 12000000 are 2.4 GHz.
+//@ spec ncr_valid(f) = (f < 1200000000 && f % 100 == 0) || (f >= 2400000000 && f % 200 == 0 && f / 200 < 16777216)
+//@ spec ncr_code(f) = ite(f >= 2400000000, f / 200, f / 100)
+//@ func (NewChannelReqPayload).MarshalBinary
+//@   props C09 C10
+//@   ensures C07/range: (err == nil) == (ncr_valid(p.Freq) && p.MaxDR <= 15 && p.MinDR <= 15)
+//@   ensures C06,C09/len: err == nil ==> len(result) == 5
+//@   ensures C06,C10/wire: err == nil ==> result[0] == p.ChIndex && le24(result[1], result[2], result[3]) == ncr_code(p.Freq) && result[4] == p.MinDR | p.MaxDR<<4
+//@   ensures C10/fresh: fresh(result)
+//@ func (*NewChannelReqPayload).UnmarshalBinary
+//@   props C09 C10
+//@   modifies *p
+//@   let c = le24(data[1], data[2], data[3])
+//@   ensures C06,C09/len: (err == nil) == (len(data) == 5)
+//@   ensures C06,C10/wire: err == nil ==> p.ChIndex == data[0] && p.MinDR == data[4] & 0x0f && p.MaxDR == data[4] >> 4 && p.Freq == ite(c >= 12000000, c * 200, c * 100)
+
+// ----- NewChannelAns: RFU(7..2) DataRateRangeOK(1) ChannelFrequencyOK(0)
+//@ func (NewChannelAnsPayload).MarshalBinary
+//@   props C09 C10
+//@   ensures C07/range: err == nil
+//@   ensures C06,C09/len: len(result) == 1
+//@   ensures C06,C10/wire: result[0] == b2u8(p.ChannelFrequencyOK) | b2u8(p.DataRateRangeOK)<<1
+//@   ensures C10/fresh: fresh(result)
+//@ func (*NewChannelAnsPayload).UnmarshalBinary
+//@   props C09 C10
+//@   modifies *p
+//@   ensures C06,C09/len: (err == nil) == (len(data) == 1)
+//@   ensures C06,C10/wire: err == nil ==> p.ChannelFrequencyOK == bit(data[0], 0) && p.DataRateRangeOK == bit(data[0], 1)
+
+// ----- RXTimingSetupReq: RFU(7..4) Del(3..0)
+//@ func (RXTimingSetupReqPayload).MarshalBinary
+//@   props C09 C10
+//@   ensures C07/range: (err == nil) == (p.Delay <= 15)
+//@   ensures C06,C09/len: err == nil ==> len(result) == 1
+//@   ensures C06,C10/wire: err == nil ==> result[0] == p.Delay
+//@   ensures C10/fresh: fresh(result)
+//@ func (*RXTimingSetupReqPayload).UnmarshalBinary
+//@   props C09 C10
+//@   modifies *p
+//@   ensures C06,C09/len: (err == nil) == (len(data) == 1)
+//@   ensures C06,C10/wire: err == nil ==> p.Delay == data[0] & 0x0f
+
+// ----- TXParamSetupReq: RFU(7..6) DownlinkDwellTime(5) UplinkDwellTime(4) MaxEIRP(3..0)
+//@ func (TXParamSetupReqPayload).MarshalBinary
+//@   props C09 C10
+//@   ensures C07/range: (err == nil) == (p.MaxEIRP <= 15)
+//@   ensures C06,C09/len: err == nil ==> len(result) == 1
+//@   ensures C06,C10/wire: err == nil ==> result[0] == p.MaxEIRP | b2u8(p.UplinkDwellTime == DwellTime400ms)<<4 | b2u8(p.DownlinkDwelltime == DwellTime400ms)<<5
+//@   ensures C10/fresh: err == nil ==> fresh(result)
+//@ func (*TXParamSetupReqPayload).UnmarshalBinary
+//@   props C09 C10
+//@   modifies *p
+//@   ensures C06,C09/len: (err == nil) == (len(data) == 1)
+//@   ensures C06,C10/wire: err == nil ==> p.MaxEIRP == data[0] & 0x0f && p.UplinkDwellTime == ite(bit(data[0], 4), DwellTime400ms, DwellTimeNoLimit) && p.DownlinkDwelltime == ite(bit(data[0], 5), DwellTime400ms, DwellTimeNoLimit)
+
+// ----- DLChannelReq: ChIndex(1) Freq(3)
+//@ func (DLChannelReqPayload).MarshalBinary
+//@   props C09 C10
+//@   ensures C07/range: (err == nil) == freq_ok(p.Freq)
+//@   ensures C06,C09/len: err == nil ==> len(result) == 4
+//@   ensures C06,C10/wire: err == nil ==> result[0] == p.ChIndex && le24(result[1], result[2], result[3]) == p.Freq / 100
+//@   ensures C10/fresh: fresh(result)
+//@ func (*DLChannelReqPayload).UnmarshalBinary
+//@   props C09 C10
+//@   modifies *p
+//@   ensures C06,C09/len: (err == nil) == (len(data) == 4)
+//@   ensures C06,C10/wire: err == nil ==> p.ChIndex == data[0] && p.Freq == le24(data[1], data[2], data[3]) * 100
+
+// ----- DLChannelAns: RFU(7..2) UplinkFrequencyExists(1) ChannelFrequencyOK(0)
+//@ func (DLChannelAnsPayload).MarshalBinary
+//@   props C09 C10
+//@   ensures C07/range: err == nil
+//@   ensures C06,C09/len: len(result) == 1
+//@   ensures C06,C10/wire: result[0] == b2u8(p.ChannelFrequencyOK) | b2u8(p.UplinkFrequencyExists)<<1
+//@   ensures C10/fresh: fresh(result)
+//@ func (*DLChannelAnsPayload).UnmarshalBinary
+//@   props C09 C10
+//@   modifies *p
+//@   ensures C06,C09/len: (err == nil) == (len(data) == 1)
+//@   ensures C06,C10/wire: err == nil ==> p.ChannelFrequencyOK == bit(data[0], 0) && p.UplinkFrequencyExists == bit(data[0], 1)
+
+// ----- PingSlotInfoReq: RFU(7..3) Periodicity(2..0)
+//@ func (PingSlotInfoReqPayload).MarshalBinary
+//@   props C09 C10
+//@   ensures C07/range: (err == nil) == (p.Periodicity <= 7)
+//@   ensures C06,C09/len: err == nil ==> len(result) == 1
+//@   ensures C06,C10/wire: err == nil ==> result[0] == p.Periodicity
+//@   ensures C10/fresh: err == nil ==> fresh(result)
+//@ func (*PingSlotInfoReqPayload).UnmarshalBinary
+//@   props C09 C10
+//@   modifies *p
+//@   ensures C06,C09/len: (err == nil) == (len(data) == 1)
+//@   ensures C06,C10/wire: err == nil ==> p.Periodicity == data[0] & 0x07
+
+// ----- BeaconFreqReq: Frequency(3)
+//@ func (BeaconFreqReqPayload).MarshalBinary
+//@   props C09 C10
+//@   ensures C07/range: (err == nil) == freq_ok(p.Frequency)
+//@   ensures C06,C09/len: err == nil ==> len(result) == 3
+//@   ensures C06,C10/wire: err == nil ==> le24(result[0], result[1], result[2]) == p.Frequency / 100
+//@   ensures C10/fresh: err == nil ==> fresh(result)
+//@ func (*BeaconFreqReqPayload).UnmarshalBinary
+//@   props C09 C10
+//@   modifies *p
+//@   ensures C06,C09/len: (err == nil) == (len(data) == 3)
+//@   ensures C06,C10/wire: err == nil ==> p.Frequency == le24(data[0], data[1], data[2]) * 100
+
+// ----- BeaconFreqAns: RFU(7..1) BeaconFrequencyOK(0)
+//@ func (BeaconFreqAnsPayload).MarshalBinary
+//@   props C09 C10
+//@   ensures C07/range: err == nil
+//@   ensures C06,C09/len: len(result) == 1
+//@   ensures C06,C10/wire: result[0] == b2u8(p.BeaconFrequencyOK)
+//@   ensures C10/fresh: fresh(result)
+//@ func (*BeaconFreqAnsPayload).UnmarshalBinary
+//@   props C09 C10
+//@   modifies *p
+//@   ensures C06,C09/len: (err == nil) == (len(data) == 1)
+//@   ensures C06,C10/wire: err == nil ==> p.BeaconFrequencyOK == bit(data[0], 0)
+
+// ----- PingSlotChannelReq: Frequency(3) | RFU(7..4) DR(3..0)
+//@ func (PingSlotChannelReqPayload).MarshalBinary
+//@   props C09 C10
+//@   ensures C07/range: (err == nil) == (freq_ok(p.Frequency) && p.DR <= 15)
+//@   ensures C06,C09/len: err == nil ==> len(result) == 4
+//@   ensures C06,C10/wire: err == nil ==> le24(result[0], result[1], result[2]) == p.Frequency / 100 && result[3] == p.DR
+//@   ensures C10/fresh: err == nil ==> fresh(result)
+//@ func (*PingSlotChannelReqPayload).UnmarshalBinary
+//@   props C09 C10
+//@   modifies *p
+//@   ensures C06,C09/len: (err == nil) == (len(data) == 4)
+//@   ensures C06,C10/wire: err == nil ==> p.Frequency == le24(data[0], data[1], data[2]) * 100 && p.DR == data[3] & 0x0f
+
+// ----- PingSlotChannelAns: RFU(7..2) DataRateOK(1) ChannelFrequencyOK(0)
+//@ func (PingSlotChannelAnsPayload).MarshalBinary
+//@   props C09 C10
+//@   ensures C07/range: err == nil
+//@   ensures C06,C09/len: len(result) == 1
+//@   ensures C06,C10/wire: result[0] == b2u8(p.ChannelFrequencyOK) | b2u8(p.DataRateOK)<<1
+//@   ensures C10/fresh: fresh(result)
+//@ func (*PingSlotChannelAnsPayload).UnmarshalBinary
+//@   props C09 C10
+//@   modifies *p
+//@   ensures C06,C09/len: (err == nil) == (len(data) == 1)
+//@   ensures C06,C10/wire: err == nil ==> p.ChannelFrequencyOK == bit(data[0], 0) && p.DataRateOK == bit(data[0], 1)
+
+// ----- DeviceTimeAns: seconds since GPS epoch (4, LE) | fractional second in 1/256 s (1)
+// in range: 0 <= t < 2^32 s.  One 1/256 s step is 3906250 ns.
+//@ spec dta_valid(t) = t >= 0 && t / 1000000000 < 4294967296
+//@ func (DeviceTimeAnsPayload).MarshalBinary
+//@   props C09 C10
+//@   let t = int64(p.TimeSinceGPSEpoch)
+//@   ensures C07/range: (err == nil) == dta_valid(t)
+//@   ensures C06,C09/len: err == nil ==> len(result) == 5
+//@   ensures C06,C10/wire: err == nil ==> int64(le32(result[0], result[1], result[2], result[3])) == t / 1000000000 && int64(result[4]) == (t % 1000000000) / 3906250
+//@   ensures C10/fresh: fresh(result)
+//@ func (*DeviceTimeAnsPayload).UnmarshalBinary
+//@   props C09 C10
+//@   modifies *p
+//@   ensures C06,C09/len: (err == nil) == (len(data) == 5)
+//@   ensures C06,C10/wire: err == nil ==> int64(p.TimeSinceGPSEpoch) == int64(le32(data[0], data[1], data[2], data[3])) * 1000000000 + int64(data[4]) * 3906250
+
+// ----- Version: RFU(7..4) Minor(3..0)
+//@ func (Version).MarshalBinary
+//@   props C09 C10
+//@   ensures C07/range: (err == nil) == (v.Minor <= 15)
+//@   ensures C06,C09/len: err == nil ==> len(result) == 1
+//@   ensures C06,C10/wire: err == nil ==> result[0] == v.Minor
+//@   ensures C10/fresh: err == nil ==> fresh(result)
+//@ func (*Version).UnmarshalBinary
+//@   props C09 C10
+//@   modifies *v
+//@   ensures C06,C09/len: (err == nil) == (len(data) == 1)
+//@   ensures C06,C10/wire: err == nil ==> v.Minor == data[0] & 0x0f
+
+// ----- ResetInd / ResetConf / RekeyInd / RekeyConf: Version(1)
+//@ func (ResetIndPayload).MarshalBinary
+//@   props C09 C10
+//@   ensures C07/range: (err == nil) == (p.DevLoRaWANVersion.Minor <= 15)
+//@   ensures C06,C09/len: err == nil ==> len(result) == 1
+//@   ensures C06,C10/wire: err == nil ==> result[0] == p.DevLoRaWANVersion.Minor
+//@   ensures C10/fresh: err == nil ==> fresh(result)
+//@ func (*ResetIndPayload).UnmarshalBinary
+//@   props C09 C10
+//@   modifies *p
+//@   ensures C06,C09/len: (err == nil) == (len(data) == 1)
+//@   ensures C06,C10/wire: err == nil ==> p.DevLoRaWANVersion.Minor == data[0] & 0x0f
+//@ func (ResetConfPayload).MarshalBinary
+//@   props C09 C10
+//@   ensures C07/range: (err == nil) == (p.ServLoRaWANVersion.Minor <= 15)
+//@   ensures C06,C09/len: err == nil ==> len(result) == 1
+//@   ensures C06,C10/wire: err == nil ==> result[0] == p.ServLoRaWANVersion.Minor
+//@   ensures C10/fresh: err == nil ==> fresh(result)
+//@ func (*ResetConfPayload).UnmarshalBinary
+//@   props C09 C10
+//@   modifies *p
+//@   ensures C06,C09/len: (err == nil) == (len(data) == 1)
+//@   ensures C06,C10/wire: err == nil ==> p.ServLoRaWANVersion.Minor == data[0] & 0x0f
+//@ func (RekeyIndPayload).MarshalBinary
+//@   props C09 C10
+//@   ensures C07/range: (err == nil) == (p.DevLoRaWANVersion.Minor <= 15)
+//@   ensures C06,C09/len: err == nil ==> len(result) == 1
+//@   ensures C06,C10/wire: err == nil ==> result[0] == p.DevLoRaWANVersion.Minor
+//@   ensures C10/fresh: err == nil ==> fresh(result)
+//@ func (*RekeyIndPayload).UnmarshalBinary
+//@   props C09 C10
+//@   modifies *p
+//@   ensures C06,C09/len: (err == nil) == (len(data) == 1)
+//@   ensures C06,C10/wire: err == nil ==> p.DevLoRaWANVersion.Minor == data[0] & 0x0f
+//@ func (RekeyConfPayload).MarshalBinary
+//@   props C09 C10
+//@   ensures C07/range: (err == nil) == (p.ServLoRaWANVersion.Minor <= 15)
+//@   ensures C06,C09/len: err == nil ==> len(result) == 1
+//@   ensures C06,C10/wire: err == nil ==> result[0] == p.ServLoRaWANVersion.Minor
+//@   ensures C10/fresh: err == nil ==> fresh(result)
+//@ func (*RekeyConfPayload).UnmarshalBinary
+//@   props C09 C10
+//@   modifies *p
+//@   ensures C06,C09/len: (err == nil) == (len(data) == 1)
+//@   ensures C06,C10/wire: err == nil ==> p.ServLoRaWANVersion.Minor == data[0] & 0x0f
+
+// ----- ADRParam: Limit_exp(7..4) Delay_exp(3..0)
+//@ func (ADRParam).MarshalBinary
+//@   props C09 C10
+//@   ensures C07/range: (err == nil) == (p.LimitExp <= 15 && p.DelayExp <= 15)
+//@   ensures C06,C09/len: err == nil ==> len(result) == 1
+//@   ensures C06,C10/wire: err == nil ==> result[0] == p.DelayExp | p.LimitExp<<4
+//@   ensures C10/fresh: err == nil ==> fresh(result)
+//@ func (*ADRParam).UnmarshalBinary
+//@   props C09 C10
+//@   modifies *p
+//@   ensures C06,C09/len: (err == nil) == (len(data) == 1)
+//@   ensures C06,C10/wire: err == nil ==> p.DelayExp == data[0] & 0x0f && p.LimitExp == data[0] >> 4
+//@ func (ADRParamSetupReqPayload).MarshalBinary
+//@   props C09 C10
+//@   ensures C07/range: (err == nil) == (p.ADRParam.LimitExp <= 15 && p.ADRParam.DelayExp <= 15)
+//@   ensures C06,C09/len: err == nil ==> len(result) == 1
+//@   ensures C06,C10/wire: err == nil ==> result[0] == p.ADRParam.DelayExp | p.ADRParam.LimitExp<<4
+//@   ensures C10/fresh: err == nil ==> fresh(result)
+//@ func (*ADRParamSetupReqPayload).UnmarshalBinary
+//@   props C09 C10
+//@   modifies *p
+//@   ensures C06,C09/len: (err == nil) == (len(data) == 1)
+//@   ensures C06,C10/wire: err == nil ==> p.ADRParam.DelayExp == data[0] & 0x0f && p.ADRParam.LimitExp == data[0] >> 4
+
+// ----- ForceRejoinReq (2 bytes, LoRaWAN 1.1 §5.13): bits 15..14 RFU, Period 13..11, Max_Retries 10..8, RFU 7, RejoinType 6..4, DR 3..0
+// the library keeps byte order [DR|RejoinType<<4, MaxRetries|Period<<3]
+//@ func (ForceRejoinReqPayload).MarshalBinary
+//@   props C09 C10
+//@   ensures C07/range: (err == nil) == (p.Period <= 7 && p.MaxRetries <= 7 && (p.RejoinType == 0 || p.RejoinType == 2) && p.DR <= 15)
+//@   ensures C06,C09/len: err == nil ==> len(result) == 2
+//@   ensures C06,C10/wire: err == nil ==> result[0] == p.DR | p.RejoinType<<4 && result[1] == p.MaxRetries | p.Period<<3
+//@   ensures C10/fresh: err == nil ==> fresh(result)
+//@ func (*ForceRejoinReqPayload).UnmarshalBinary
+//@   props C09 C10
+//@   modifies *p
+//@   ensures C06,C09/len: (err == nil) == (len(data) == 2)
+//@   ensures C06,C10/wire: err == nil ==> p.DR == data[0] & 0x0f && p.RejoinType == (data[0] >> 4) & 0x07 && p.MaxRetries == data[1] & 0x07 && p.Period == (data[1] >> 3) & 0x07
+
+// ----- RejoinParamSetupReq: MaxTimeN(7..4) MaxCountN(3..0)
+//@ func (RejoinParamSetupReqPayload).MarshalBinary
+//@   props C09 C10
+//@   ensures C07/range: (err == nil) == (p.MaxTimeN <= 15 && p.MaxCountN <= 15)
+//@   ensures C06,C09/len: err == nil ==> len(result) == 1
+//@   ensures C06,C10/wire: err == nil ==> result[0] == p.MaxCountN | p.MaxTimeN<<4
+//@   ensures C10/fresh: err == nil ==> fresh(result)
+//@ func (*RejoinParamSetupReqPayload).UnmarshalBinary
+//@   props C09 C10
+//@   modifies *p
+//@   ensures C06,C09/len: (err == nil) == (len(data) == 1)
+//@   ensures C06,C10/wire: err == nil ==> p.MaxCountN == data[0] & 0x0f && p.MaxTimeN == data[0] >> 4
+
+// ----- RejoinParamSetupAns: RFU(7..1) TimeOK(0)
+//@ func (RejoinParamSetupAnsPayload).MarshalBinary
+//@   props C09 C10
+//@   ensures C07/range: err == nil
+//@   ensures C06,C09/len: len(result) == 1
+//@   ensures C06,C10/wire: result[0] == b2u8(p.TimeOK)
+//@   ensures C10/fresh: fresh(result)
+//@ func (*RejoinParamSetupAnsPayload).UnmarshalBinary
+//@   props C09 C10
+//@   modifies *p
+//@   ensures C06,C09/len: (err == nil) == (len(data) == 1)
+//@   ensures C06,C10/wire: err == nil ==> p.TimeOK == bit(data[0], 0)
+
+// ----- DeviceModeInd / DeviceModeConf: Class(1)
+//@ func (DeviceModeIndPayload).MarshalBinary
+//@   props C09 C10
+//@   ensures C07/range: err == nil
+//@   ensures C06,C09/len: len(result) == 1
+//@   ensures C06,C10/wire: result[0] == uint8(p.Class)
+//@   ensures C10/fresh: fresh(result)
+//@ func (*DeviceModeIndPayload).UnmarshalBinary
+//@   props C09 C10
+//@   modifies *p
+//@   ensures C06,C09/len: (err == nil) == (len(data) == 1)
+//@   ensures C06,C10/wire: err == nil ==> uint8(p.Class) == data[0]
+//@ func (DeviceModeConfPayload).MarshalBinary
+//@   props C09 C10
+//@   ensures C07/range: err == nil
+//@   ensures C06,C09/len: len(result) == 1
+//@   ensures C06,C10/wire: result[0] == uint8(p.Class)
+//@   ensures C10/fresh: fresh(result)
+//@ func (*DeviceModeConfPayload).UnmarshalBinary
+//@   props C09 C10
+//@   modifies *p
+//@   ensures C06,C09/len: (err == nil) == (len(data) == 1)
+//@   ensures C06,C10/wire: err == nil ==> uint8(p.Class) == data[0]
